@@ -74,13 +74,60 @@ def run_case(case):
 	return {'ok': bool(ok), 'expected': exp, 'actual': act}
 
 
+def run_real_files(case):
+	"""real FASTA files of chosen sizes through the real thread/process pools with few workers: the result must be in
+	file order and equal to the single-file results"""
+	import os, shutil, tempfile
+	import numpy as np
+	from gambit.kmers import KmerSpec
+	from gambit.seq import SequenceFile
+	from gambit.sigs.calc import calc_file_signatures, calc_file_signature
+	tmp = tempfile.mkdtemp(prefix='c13_')
+	try:
+		rnd = random.Random(case.get('seed', 0))
+		files = []
+		for i, size in enumerate(case['sizes']):
+			p = os.path.join(tmp, f'g{i}.fasta')
+			with open(p, 'w') as f:
+				f.write(f'>s{i}\n')
+				f.write(''.join(rnd.choice('ACGT') for _ in range(size)) + '\n')
+			files.append(SequenceFile(p, 'fasta'))
+		ks = KmerSpec(4, 'AT')
+		expected = [calc_file_signature(ks, f) for f in files]
+		kw = dict(concurrency=case['mode'], max_workers=case['workers'])
+		if case.get('own_executor'):
+			from concurrent.futures import ThreadPoolExecutor
+			with ThreadPoolExecutor(max_workers=case['workers']) as ex:
+				res = calc_file_signatures(ks, files, executor=ex)
+		else:
+			res = calc_file_signatures(ks, files, **kw)
+		ok = len(res) == len(files) and all(np.array_equal(a, b) for a, b in zip(res, expected))
+		pos = [next((j for j, e in enumerate(expected) if np.array_equal(r, e)), None) for r in res]
+		return {'ok': bool(ok), 'expected': list(range(len(files))), 'actual': pos}
+	finally:
+		shutil.rmtree(tmp, ignore_errors=True)
+
+
+_orig_run_case = run_case
+
+
+def run_case(case):
+	if case.get('kind') == 'real_files':
+		return run_real_files(case)
+	return _orig_run_case(case)
+
+
 def bounded(tier, seed):
 	rnd = random.Random(seed)
 	n_cases, failures, sample = 0, [], []
 	nmax = 5 if tier == 'quick' else 6
 	def run(c):
 		nonlocal n_cases
-		r = run_case(c)
+		try:
+			r = run_case(c)
+		except Exception as e:      # the real code raised something no file error explains
+			import traceback
+			r = {'ok': False, 'expected': 'one signature per file, in order', 'actual': 'raised ' + ''.join(traceback.format_exception_only(type(e), e)).strip()}
 		n_cases += 1
 		if len(sample) < 2 and n_cases % 50 == 3:
 			sample.append({'case': c, 'result': r})
@@ -94,6 +141,15 @@ def bounded(tier, seed):
 					run({'n': n, 'perm': list(perm), 'bad': [b]})
 			if len(failures) >= 3:
 				return {'cases': n_cases, 'failures': failures, 'samples': sample}
+	# real files whose sizes come in every relative order, fewer workers than files
+	sizes = [300, 3000, 30000, 60]
+	for n in (3, 4):
+		for perm in itertools.permutations(range(n)):
+			if tier == 'quick' and n == 4 and rnd.random() < .6:
+				continue
+			run({'kind': 'real_files', 'sizes': [sizes[p] for p in perm], 'mode': 'threads', 'workers': rnd.choice([1, 2]), 'seed': n,
+			     'own_executor': rnd.random() < .3})
+	run({'kind': 'real_files', 'sizes': [3000, 300, 30000], 'mode': 'processes', 'workers': 2, 'seed': 5})
 	for n in (0, 1, 4, 9):
 		run({'n': n, 'perm': [], 'mode': 'sequential'})
 		run({'n': n, 'perm': [], 'mode': 'threads', 'workers': rnd.choice([1, 2, 5])})
